@@ -130,6 +130,11 @@ def install(Exec, Runner):
             return collapse_choice(ctx, outs)
         if base.k == "conc" and isinstance(base.z, dict):
             idx = self.ev(st, e.slice)
+            if idx.k == "optint":
+                # an optional integer as the key of a constant table: None is not a key (KeyError)
+                ctx.oblige(st, z3.Not(idx.z[0]), "not-none", e, "key of a constant table is not None")
+                idx = S.mk_int(idx.z[1])
+                return index_table(self, st, base.z, as_int(ctx, st, idx, e), e)
             if idx.k in ("int", "bool") and not z3.is_int_value(z3.simplify(as_int(ctx, st, idx, e))):
                 return index_table(self, st, base.z, as_int(ctx, st, idx, e), e)
         # fall back to the plain cases
